@@ -61,6 +61,7 @@ class Contract:
         self.closures = {}
         self.btree_loops = []
         self.let_types = {}
+        self.rename_types = {}
         self.loop_iter = {}
         self.rename_calls = {}
 
@@ -121,6 +122,9 @@ def parse_contracts(path):
         elif word == 'closure':
             mm = re.match(r'(\d+)\s*:\s*(.*)$', rest)
             cur.closures[int(mm.group(1))] = mm.group(2)
+            last = None
+        elif word == 'rename_type':
+            cur.rename_types = dict(x.split('=') for x in rest.split())
             last = None
         elif word == 'let_type':
             v, ty = rest.split(None, 1)
@@ -669,6 +673,11 @@ def rename_calls(body, mapping, rel, base_line, log):
     return body
 
 
+def rename_idents(text, mapping):
+    toks = rsscan.tokenize(text)
+    return ''.join((mapping[t[1]] if (t[0] == 'ident' and t[1] in mapping) else t[1]) for t in toks)
+
+
 def find_loops(body):
     """byte offsets (in body) of the opening brace of each for/while/loop body, in source order"""
     toks = rsscan.tokenize(body)
@@ -697,6 +706,175 @@ def find_loops(body):
 
 
 # ------------------------------------------------------------------------------------------------
+# grammar actions (src/reval.lalrpop)
+
+def parse_lalrpop(rel):
+    """Very small reader for the subset of lalrpop syntax used by reval.lalrpop.  Returns
+    (nonterminal types, list of alternatives dict(nt, k, symbols [(name|None, sym_text)], action, fallible, line))."""
+    p = os.path.join(REPO, rel)
+    if not os.path.exists(p):
+        raise ExtractError('lost anchor: %s missing' % rel)
+    src = open(p).read()
+    # strip // comments (outside strings)
+    toks = rsscan.tokenize(src)
+    text = ''.join((' ' * len(t[1]) if t[0] == 'comment' else t[1]) for t in toks)
+    # skip the `match { ... } else { ... }` block and `extern { ... }`
+    def skip_block(text, kw):
+        m = re.search(r'\b%s\s*\{' % kw, text)
+        if not m:
+            return text
+        tk = rsscan.tokenize(text)
+        # find token index of the '{' at m.end()-1
+        for i, t in enumerate(tk):
+            if t[2] == m.end() - 1:
+                e = rsscan.match_close(tk, i)
+                end = tk[e][3]
+                # an `else { ... }` may follow a match block
+                m2 = re.match(r'\s*else\s*\{', text[end:])
+                if m2:
+                    target = end + m2.end() - 1
+                    for j, t2 in enumerate(tk):
+                        if t2[2] == target:
+                            end = tk[rsscan.match_close(tk, j)][3]
+                            break
+                return text[:m.start()] + ' ' * (end - m.start()) + text[end:]
+        return text
+    text = skip_block(text, 'extern')
+    text = skip_block(text, 'match')
+    tk = rsscan.tokenize(text)
+    sig = rsscan.sig(tk)
+    types = {}
+    alts = []
+    i = 0
+    # items:  [pub] Name : Type = Body ;     Body = Alt | { Alt , Alt , ... }
+    while i < len(sig):
+        t = tk[sig[i]]
+        if t[0] == 'ident' and t[1] in ('use', 'grammar'):
+            while tk[sig[i]][1] != ';':
+                i += 1
+            i += 1
+            continue
+        if t[0] == 'ident' and t[1] == 'pub':
+            i += 1
+            continue
+        if t[0] == 'ident' and i + 1 < len(sig) and tk[sig[i + 1]][1] == ':':
+            name = t[1]
+            # type: up to '=' at depth 0
+            j = i + 2
+            depth = 0
+            while True:
+                tt = tk[sig[j]]
+                if tt[1] in ('(', '[', '<'):
+                    depth += 1
+                elif tt[1] in (')', ']', '>'):
+                    depth -= 1
+                elif tt[1] == '=' and depth == 0:
+                    break
+                j += 1
+            ty = text[tk[sig[i + 2]][2]:tk[sig[j]][2]].strip()
+            types[name] = ty
+            j += 1
+            # body
+            if tk[sig[j]][1] == '{':
+                close = rsscan.match_close(tk, sig[j])
+                lo, hi = tk[sig[j]][3], tk[close][2]
+                body_end = close
+                braces = True
+            else:
+                # up to ';' at depth 0
+                q = j
+                while True:
+                    tt = tk[sig[q]]
+                    if tt[1] in ('(', '[', '{'):
+                        e = rsscan.match_close(tk, sig[q])
+                        while sig[q] < e:
+                            q += 1
+                    elif tt[1] == ';':
+                        break
+                    q += 1
+                lo, hi = tk[sig[j]][2], tk[sig[q]][2]
+                body_end = sig[q]
+                braces = False
+            body = text[lo:hi]
+            # split alternatives on ',' at depth 0 (only inside a braces body)
+            parts = []
+            if braces:
+                btk = rsscan.tokenize(body)
+                bs = rsscan.sig(btk)
+                start = 0
+                q = 0
+                while q < len(bs):
+                    tt = btk[bs[q]]
+                    if tt[1] in ('(', '[', '{'):
+                        e = rsscan.match_close(btk, bs[q])
+                        while bs[q] < e:
+                            q += 1
+                    elif tt[1] == '<':
+                        # generic-ish angle group of a symbol binding: skip to matching '>' (no nesting with other brackets needed)
+                        d = 0
+                        while q < len(bs):
+                            x = btk[bs[q]][1]
+                            if x == '<':
+                                d += 1
+                            elif x == '>':
+                                d -= 1
+                                if d == 0:
+                                    break
+                            elif x == '=>':
+                                break
+                            q += 1
+                    elif tt[1] == ',':
+                        parts.append((body[start:tt[2]], lo + start))
+                        start = tt[3]
+                    q += 1
+                if body[start:].strip():
+                    parts.append((body[start:], lo + start))
+            else:
+                parts.append((body, lo))
+            for k, (alt, off) in enumerate(parts, 1):
+                m = re.search(r'=>(\??)', alt)
+                if not m:
+                    continue  # pass-through alternative: no hand-written code
+                syms_text = alt[:m.start()]
+                action = alt[m.end():].strip()
+                fallible = m.group(1) == '?'
+                syms = []
+                # named bindings <name:Sym...> ; anonymous <Sym>
+                for mm in re.finditer(r'<\s*(?:([a-z_][A-Za-z0-9_]*)\s*:\s*)?((?:\([^()]*\)|[A-Za-z_][A-Za-z0-9_]*)\s*[*?+]?)\s*>', syms_text):
+                    syms.append((mm.group(1), mm.group(2).strip()))
+                if not syms:
+                    # no selected symbols: `<>` (if used) stands for every symbol of the alternative
+                    for w in syms_text.split():
+                        syms.append((None, w))
+                alts.append({'nt': name, 'k': k, 'symbols': syms, 'action': action, 'fallible': fallible,
+                             'line': src.count('\n', 0, off + (len(alt) - len(alt.lstrip()))) + 1})
+            i = sig.index(body_end) + 1 if body_end in sig else j + 1
+            # skip a trailing ';'
+            while i < len(sig) and tk[sig[i]][1] == ';':
+                i += 1
+            continue
+        i += 1
+    return types, alts
+
+
+def lalrpop_sym_type(sym, types):
+    """Rust type of the value a grammar symbol produces"""
+    sym = sym.strip()
+    m = re.match(r'^\(\s*<\s*([A-Za-z_][A-Za-z0-9_]*)\s*>\s*[A-Z_]*\s*\)\s*\*$', sym)
+    if m:
+        return 'Vec<%s>' % lalrpop_sym_type(m.group(1), types)
+    if sym.endswith('?'):
+        return 'Option<%s>' % lalrpop_sym_type(sym[:-1], types)
+    if sym.endswith('*'):
+        return 'Vec<%s>' % lalrpop_sym_type(sym[:-1], types)
+    if sym in types:
+        return types[sym]
+    if re.match(r'^[A-Z][A-Z0-9_]*$', sym):
+        return "&'static str"      # terminal: the matched slice of the input
+    raise ExtractError('grammar symbol %r: unknown type' % sym)
+
+
+# ------------------------------------------------------------------------------------------------
 # assembly
 
 class Assembler:
@@ -719,7 +897,7 @@ class Assembler:
             self.linemap.append((first, len(self.lines), info))
         return first
 
-    def emit_type(self, rel, kind, name):
+    def emit_type(self, rel, kind, name, new_name=None):
         src, toks, items = load_src(rel)
         c = [i for i in items if i.kind == kind and i.name == name and i.ctx == '']
         if len(c) != 1:
@@ -733,6 +911,10 @@ class Assembler:
         body = re.sub(r'pub\s*\(\s*(crate|super)\s*\)', 'pub', body)     # visibility only: one module in the assembled file
         if kind == 'struct':
             body = publicize_fields(body)
+        if new_name:
+            # R9 (types): alpha-rename an item whose name clashes with another crate item in the single-module assembled file
+            body = re.sub(r'\b(struct|enum|type)\s+%s\b' % re.escape(name), lambda m: '%s %s' % (m.group(1), new_name), body, count=1)
+            self.rewrites.append({'rule': 'R9', 'where': '%s:%d' % (rel, rsscan.line_of(src, it.start)), 'text': '%s %s -> %s' % (kind, name, new_name)})
         if kind in ('const', 'static'):
             # R14: the elided lifetime of a reference in a const/static item is 'static (Rust's own rule); verus! needs it written
             body, n14 = re.subn(r"&\s*(?!')(?=[A-Za-z\[])", "&'static ", body.split('=', 1)[0])[0] + '=' + body.split('=', 1)[1], 0
@@ -763,6 +945,8 @@ class Assembler:
         # head: name the return value
         head_clean = strip_docs_and_attrs(head).rstrip()
         head_clean = qualify_std_result(head_clean)
+        if c.rename_types:
+            head_clean = rename_idents(head_clean, c.rename_types)
         if c.ret:
             m = re.search(r'->\s*(.+?)\s*(where\b.*)?$', head_clean, re.S)
             if not m:
@@ -873,6 +1057,9 @@ class Assembler:
             b = rewrite_format(b, c.src, base_line, log, helpers, re.sub(r'\W+', '_', key))
             b = apply_rewrites(b, c.src, base_line, log)
             b = annotate_closures(b, c.closures, c.src, base_line, log)
+            if c.rename_types:
+                b = rename_idents(b, c.rename_types)
+                log.append({'rule': 'R9', 'where': '%s:%d' % (c.src, base_line), 'text': 'type names %s' % c.rename_types})
             for lv, lty in c.let_types.items():
                 # R15: type ascription on a `let` whose type verus! cannot infer (rustc re-checks the ascribed type)
                 b, n15 = re.subn(r'\blet\s+(mut\s+)?%s\s*=' % re.escape(lv), lambda m: 'let %s%s: %s =' % (m.group(1) or '', lv, lty), b)
@@ -955,6 +1142,48 @@ class Assembler:
                                           [{'id': x.cid, 'tags': x.tags, 'kind': 'loop-' + x.kind} for cls in c.loops.values() for x in cls],
                                'safety_tags': c.safety_tags})
 
+    def emit_actions(self, spec):
+        """//@actions <file.lalrpop> <tag> [skip=<substr>,<substr>...]: one fn per hand-written grammar action, body = the action text"""
+        parts = spec.split()
+        rel, tag = parts[0], parts[1]
+        skips = []
+        for x in parts[2:]:
+            if x.startswith('skip='):
+                skips = [y for y in x[5:].split('|') if y]
+        types, alts = parse_lalrpop(rel)
+        n = 0
+        for a in alts:
+            key = 'action %s_%d' % (a['nt'], a['k'])
+            if any(sk in a['action'] for sk in skips):
+                self.dropped.append({'item': key, 'where': '%s:%d' % (rel, a['line']), 'dropped_attrs': ['not extracted (iterator adapters): ' + a['action'][:80]]})
+                continue
+            params = []
+            names = []
+            for idx, (nm, sym) in enumerate(a['symbols']):
+                ty = lalrpop_sym_type(sym, types)
+                pn = nm or ('p%d' % idx)
+                if nm is None and re.match(r'^[A-Z][A-Z0-9_]*$', sym) and '<>' not in a['action']:
+                    continue   # unselected terminal (punctuation / keyword): not passed to the action
+                params.append('%s: %s' % (pn, ty))
+                names.append(pn)
+            action = a['action'].replace('<>', ', '.join(names))
+            ret = types[a['nt']]
+            log = []
+            action = apply_rewrites('{ ' + action + ' }', rel, a['line'], log)
+            action = annotate_closures(action, {}, rel, a['line'], log)
+            self.rewrites.extend(log)
+            rty = ('core::result::Result<%s, RevalParseError>' % ret) if a['fallible'] else ret
+            fname = 'action_%s_%d' % (a['nt'], a['k'])
+            first = self.emit('pub fn %s(%s) -> %s' % (fname, ', '.join(params), rty))
+            self.emit(action + '\n')
+            last = len(self.lines)
+            self.linemap.append((first, last, {'kind': 'fnbody', 'fn': key, 'clause': key + '.safety', 'tags': [tag], 'src': '%s:%d' % (rel, a['line'])}))
+            self.functions.append({'key': key, 'name': fname, 'ctx': '', 'src': '%s:%d' % (rel, a['line']), 'clauses': [], 'safety_tags': [tag]})
+            self.hashes.append({'item': key, 'file': rel, 'line': a['line'], 'src_sha256': hashlib.sha256(a['action'].encode()).hexdigest()})
+            n += 1
+        if n == 0:
+            raise ExtractError('lost anchor: no grammar actions found in %s' % rel)
+
     def run_template(self, path):
         with open(path) as f:
             tl = f.read().split('\n')
@@ -982,11 +1211,15 @@ class Assembler:
                 parts = rest.split()
                 self.pending_lemma = (parts[0], parts[1:])
                 continue
+            if d == 'actions':
+                self.emit_actions(rest)
+                continue
             if d == 'include':
                 self.run_template(os.path.join(VERIF, 'contracts', rest))
             elif d == 'type':
-                rel, kind, name = rest.split()
-                self.emit_type(rel, kind, name)
+                ps = rest.split()
+                rel, kind, name = ps[0], ps[1], ps[2]
+                self.emit_type(rel, kind, name, ps[4] if len(ps) >= 5 and ps[3] == 'as' else None)
             elif d == 'fn':
                 self.emit_fn(rest, False)
             elif d == 'import':
